@@ -9,6 +9,7 @@ import (
 	"strconv"
 
 	"github.com/quickfixgo/quickfix"
+	"github.com/quickfixgo/quickfix/config"
 	"strings"
 	"testing"
 	"time"
@@ -107,6 +108,14 @@ func (m *c01mon) after(s *sim, st rig.StepResult, ctx stepCtx) {
 		}
 		m.feat["message-above-expected:"+ctx.stateBefore] = true
 	}
+	// nor can a message below it be: whatever its type and flags, its arrival leaves the expected
+	// number alone (the number advances only for the message that carries it)
+	if ctx.kind == "in" && ctx.hasSeq && ctx.seq < ctx.tBefore && ctx.msgType != "4" && ctx.msgType != "A" && !m.resetInStep(s, st) {
+		if T := s.r.T(); T != ctx.tBefore {
+			vk.Violation(s.t, c, "C01/expected-number-advanced-by-a-message-below-it", "a %s message with MsgSeqNum %d arrived in state %s while %d was expected; afterwards %d is expected\n%s", ctx.msgType, ctx.seq, ctx.stateBefore, ctx.tBefore, T, s.history())
+		}
+		m.feat["message-below-expected:"+ctx.msgType] = true
+	}
 	// positive half: an in-sequence, well-formed application message in a logged-on state is delivered in this very step
 	if ctx.kind == "in" && ctx.hasSeq && ctx.loggedOnBefore && !fixwire.IsAdminMsgType(ctx.msgType) && ctx.seq == ctx.tBefore && ctx.wellFormed {
 		n := 0
@@ -144,6 +153,13 @@ func (s *sim) inject(t *rapid.T) ([]byte, bool) {
 		if o.PossDup == "Y" {
 			wellFormed = false // PossDup without OrigSendingTime
 		}
+	}
+	// a frame whose SendingTime is missing or unreadable is answered with a Reject whatever its number
+	switch rapid.IntRange(0, 11).Draw(t, "sending-time") {
+	case 0:
+		o.SendingTime, wellFormed = "\x00absent", false
+	case 1:
+		o.SendingTime, wellFormed = "2024-01-01", false
 	}
 	var body []fixwire.Field
 	mt := typ
@@ -263,4 +279,58 @@ func TestC01_Rapid(t *testing.T) {
 	rapid.Check(t, func(t *rapid.T) {
 		vk.Guard(func() { c01Property(t) })
 	})
+}
+
+// TestReplay_C01_RejectedFramesFixed: regression for the defect repaired by /repo 393f716. A frame
+// that is rejected before its number is looked at (SendingTime missing or unreadable), or a too-low
+// PossDup frame without SendingTime, carries a number other than the expected one: the expected
+// number must stay where it is, and the message that does carry it is delivered afterwards.
+func TestReplay_C01_RejectedFramesFixed(t *testing.T) {
+	c := c01()
+	for _, tc := range []struct {
+		delta       int
+		sendingTime string
+		possDup     bool
+		noLatency   bool
+	}{
+		{5, "\x00absent", false, false},
+		{5, "2024-01-01", false, false},
+		{-2, "\x00absent", false, false},
+		{-2, "\x00absent", true, true},
+	} {
+		tc := tc
+		vk.Guard(func() {
+			cfg := simCfg{begin: "FIX.4.2", hb: 30, store: "memory", settings: map[string]string{}}
+			if tc.noLatency {
+				cfg.settings[config.CheckLatency] = "N"
+			}
+			s := newSim(t, c, cfg)
+			defer s.close()
+			mon := &c01mon{feat: map[string]bool{}, lastT: 1}
+			s.after = append(s.after, mon.after)
+			if !s.logon(0) {
+				t.Fatalf("harness: logon failed\n%s", s.history())
+			}
+			for i := 0; i < 3; i++ {
+				s.peerLive("D", false)
+				s.pumpOne()
+			}
+			T := s.r.T()
+			o := peer.Opt{SendingTime: tc.sendingTime}
+			if tc.possDup {
+				o.PossDup, o.OrigSending = "Y", s.p.Stamp(time.Now().Add(-30*time.Second))
+			}
+			f := s.p.Frame("D", T+tc.delta, []fixwire.Field{fixwire.F(11, "odd"), fixwire.F(55, "IBM"), fixwire.F(54, "1")}, o)
+			ctx := s.ctxFor("in", f, false)
+			ctx.wellFormed = false
+			s.logf("inj %s (T=%d %s)", vk.Show(f), ctx.tBefore, ctx.stateBefore)
+			st := s.r.In(f)
+			s.observe(st, ctx)
+			// the message that carries the expected number still arrives and is delivered
+			if s.r.V.IsLoggedOn() && s.r.V.StateName() == "inSession" {
+				s.peerLive("D", false)
+				s.pumpOne()
+			}
+		})
+	}
 }
